@@ -1,0 +1,74 @@
+//! C38 (heap-size bounds): standalone construction of the crate-private GC trigger policies and
+//! thin wrappers around their `GCTriggerPolicy` methods that do not need an `MMTK` instance.
+//! No behaviour of their own.
+
+use crate::util::heap::gc_trigger::{FixedHeapSizeTrigger, GCTriggerPolicy, MemBalancerTrigger};
+use crate::vm::VMBinding;
+
+/// A standalone `MemBalancerTrigger`.
+pub struct MemBalancer(MemBalancerTrigger);
+
+/// `(min_heap_pages, max_heap_pages, current_heap_pages, pending_pages, previous stats, current
+/// stats)`; statistics are `[allocation_pages, allocation_time, collection_pages, collection_time]`.
+pub type MemBalancerState = (usize, usize, usize, usize, [Option<f64>; 4], [f64; 4]);
+
+impl MemBalancer {
+    /// `MemBalancerTrigger::new(min_heap_pages, max_heap_pages)`, as `GCTrigger::new` does for
+    /// `DynamicHeapSize`.
+    pub fn new(min_heap_pages: usize, max_heap_pages: usize) -> Self {
+        MemBalancer(MemBalancerTrigger::verif_new(min_heap_pages, max_heap_pages))
+    }
+    pub fn on_pending_allocation<VM: VMBinding>(&self, pages: usize) {
+        <MemBalancerTrigger as GCTriggerPolicy<VM>>::on_pending_allocation(&self.0, pages)
+    }
+    pub fn get_current_heap_size_in_pages<VM: VMBinding>(&self) -> usize {
+        <MemBalancerTrigger as GCTriggerPolicy<VM>>::get_current_heap_size_in_pages(&self.0)
+    }
+    pub fn get_max_heap_size_in_pages<VM: VMBinding>(&self) -> usize {
+        <MemBalancerTrigger as GCTriggerPolicy<VM>>::get_max_heap_size_in_pages(&self.0)
+    }
+    pub fn can_heap_size_grow<VM: VMBinding>(&self) -> bool {
+        <MemBalancerTrigger as GCTriggerPolicy<VM>>::can_heap_size_grow(&self.0)
+    }
+    /// Set the statistics of the current estimation (what `on_gc_start/release/end` collect).
+    pub fn set_current_stats(&self, cur: [f64; 4]) {
+        self.0.verif_set_current_stats(cur)
+    }
+    /// Set the statistics of the previous estimation.
+    pub fn set_prev_stats(&self, prev: [Option<f64>; 4]) {
+        self.0.verif_set_prev_stats(prev)
+    }
+    /// The real `MemBalancerTrigger::compute_new_heap_limit(live, extra_reserve, stats)` on the
+    /// trigger's own statistics.
+    pub fn compute_new_heap_limit(&self, live: usize, extra_reserve: usize) {
+        self.0.verif_compute_new_heap_limit(live, extra_reserve)
+    }
+    /// The last statement of `on_gc_end`: forget the pending allocations.
+    pub fn clear_pending(&self) {
+        self.0.verif_clear_pending()
+    }
+    pub fn state(&self) -> MemBalancerState {
+        self.0.verif_state()
+    }
+}
+
+/// A standalone `FixedHeapSizeTrigger`.
+pub struct FixedHeap(FixedHeapSizeTrigger);
+
+impl FixedHeap {
+    pub fn new(total_pages: usize) -> Self {
+        FixedHeap(FixedHeapSizeTrigger::verif_new(total_pages))
+    }
+    pub fn on_pending_allocation<VM: VMBinding>(&self, pages: usize) {
+        <FixedHeapSizeTrigger as GCTriggerPolicy<VM>>::on_pending_allocation(&self.0, pages)
+    }
+    pub fn get_current_heap_size_in_pages<VM: VMBinding>(&self) -> usize {
+        <FixedHeapSizeTrigger as GCTriggerPolicy<VM>>::get_current_heap_size_in_pages(&self.0)
+    }
+    pub fn get_max_heap_size_in_pages<VM: VMBinding>(&self) -> usize {
+        <FixedHeapSizeTrigger as GCTriggerPolicy<VM>>::get_max_heap_size_in_pages(&self.0)
+    }
+    pub fn can_heap_size_grow<VM: VMBinding>(&self) -> bool {
+        <FixedHeapSizeTrigger as GCTriggerPolicy<VM>>::can_heap_size_grow(&self.0)
+    }
+}
